@@ -2,7 +2,7 @@
 C05 support: the model's `splitQueries` (sources = already written SQL chunks) refines the
 intended structured splitting `Intended.splitA` (sources = `SrcA`).
 
-  C05_split_refines        success of the model ⇒ `splitA` succeeds with pointwise related links
+  C05_split_refines_rel        success of the model ⇒ `splitA` succeeds with pointwise related links
   C05_split_refines_conv   `splitA` succeeds and every join condition is writable ⇒ the model succeeds
   C05_split_fails_iff      the model fails ⇔ `splitA` is `none` or some join condition is not writable
   C05_split_names / C05_split_length
@@ -23,7 +23,7 @@ open Pql SplitQ Intended
 
 /-- **The model refines the structured splitting.**  Started on related lists, a successful
     `splitQueries` is matched by a successful `splitA` with related results. -/
-theorem C05_split_refines (src : Bytes) (scope : List (Bytes × List Chunk)) (t : Tabular)
+theorem C05_split_refines_rel (src : Bytes) (scope : List (Bytes × List Chunk)) (t : Tabular)
     (dstA : List SubA) (dst out : List Subquery)
     (hrel : Forall₂ (SubRel src scope) dstA dst)
     (h : splitQueries src scope dst t = .ok out) :
@@ -121,7 +121,7 @@ example : (splitA [] exJoin).isSome = true ∧ tabWritable [] [] exJoin = true :
 example : ∃ out outA, splitQueries [] [] [] exJoin = .ok out ∧ splitA [] exJoin = some outA ∧
     Forall₂ (SubRel [] []) outA out := by
   obtain ⟨out, h⟩ := exists_of_isOk (x := splitQueries [] [] [] exJoin) (by decide)
-  obtain ⟨outA, hA, hr⟩ := C05_split_refines [] [] exJoin [] [] out .nil h
+  obtain ⟨outA, hA, hr⟩ := C05_split_refines_rel [] [] exJoin [] [] out .nil h
   exact ⟨out, outA, h, hA, hr⟩
 /-- non-vacuity of the converse and of the failure characterisation -/
 example : ∃ out outA, splitA [] exJoin = some outA ∧ splitQueries [] [] [] exJoin = .ok out ∧
@@ -148,7 +148,7 @@ theorem C05_split_names (src : Bytes) (scope : List (Bytes × List Chunk)) (t : 
     (dstA : List SubA) (dst out : List Subquery) (hrel : Forall₂ (SubRel src scope) dstA dst)
     (h : splitQueries src scope dst t = .ok out) :
     ∃ outA, splitA dstA t = some outA ∧ outA.map (·.name) = out.map (·.name) := by
-  obtain ⟨outA, hA, hr⟩ := C05_split_refines src scope t dstA dst out hrel h
+  obtain ⟨outA, hA, hr⟩ := C05_split_refines_rel src scope t dstA dst out hrel h
   exact ⟨outA, hA, ListRel.names hr⟩
 
 /-- **Same length**; and operator, sort, take agree index by index. -/
@@ -159,7 +159,7 @@ theorem C05_split_length (src : Bytes) (scope : List (Bytes × List Chunk)) (t :
       ∀ (i : Nat) (h₁ : i < outA.length) (h₂ : i < out.length),
         outA[i].name = out[i].name ∧ outA[i].op = out[i].op ∧ outA[i].sort = out[i].sort ∧
           outA[i].take = out[i].take ∧ SrcRel src scope outA[i].source out[i].source := by
-  obtain ⟨outA, hA, hr⟩ := C05_split_refines src scope t dstA dst out hrel h
+  obtain ⟨outA, hA, hr⟩ := C05_split_refines_rel src scope t dstA dst out hrel h
   refine ⟨outA, hA, hr.length_eq, fun i h₁ h₂ => ?_⟩
   have := hr.getElem i h₁ h₂
   exact ⟨this.name, this.op, this.sort, this.take, this.source⟩
@@ -236,7 +236,7 @@ theorem C05_reads_earlier_model (src : Bytes) (scope : List (Bytes × List Chunk
       (∃ n, out[i].source = [.qid n] ∧ earlier n) ∨
       (∃ u kw l r c, out[i].source = joinSourceOf u kw [.qid l] r c ∧ earlier l ∧ earlier r) := by
   intro i hi earlier
-  obtain ⟨outA, hA, hr⟩ := C05_split_refines src scope t [] [] out .nil h
+  obtain ⟨outA, hA, hr⟩ := C05_split_refines_rel src scope t [] [] out .nil h
   have hiA : i < outA.length := by rw [hr.length_eq]; exact hi
   have key := C05_reads_earlier t outA hA i hiA
   have hearlier : ∀ n, ((∃ (j : Nat) (hj : j < i), (outA[j]'(Nat.lt_trans hj hiA)).name = n) ∨ n ∈ tablesOf t) →
